@@ -534,10 +534,12 @@ impl PeerHandler {
                 self.new_piece_request(true, &req_data).await?
             }
             UnchokeCmd::SendRequest(req_data) => self.new_piece_request(false, &req_data).await?,
+            // Manager un-assigned this peer, so piece collected so far must not be reported later
             UnchokeCmd::SendNotInterested => {
+                self.piece_rx = None;
                 self.connection.send_msg(&NotInterested::new()).await?
             }
-            UnchokeCmd::Ignore => (),
+            UnchokeCmd::Ignore => self.piece_rx = None,
         }
 
         Ok(())
